@@ -919,6 +919,13 @@ static long do_call(jv *c, jv **extra)
   /* changes the CALLER makes to its own process between library calls (the library must not remember the old state) */
   if (!strcmp(fn, "pchdir")) { K->proc[0].cwd = sk_str(j_str(c, "dir", "/")); K->cwdlen_override = 0; return 0; }
   if (!strcmp(fn, "psetenv")) { environ = (char **) strarr(j_get(c, "env")); return 0; }
+  if (!strcmp(fn, "psig")) {   /* the caller changes its own signal mask and dispositions */
+    jv *m = j_get(c, "mask"), *dd = j_get(c, "disp");
+    K->proc[0].mask = 0;
+    if (m) for (int i = 0; i < m->n; i++) K->proc[0].mask |= 1ULL << (m->a[i]->i - 1);
+    if (dd) for (int i = 0; i < dd->n; i++) K->proc[0].disp[dd->a[i]->a[0]->i] = (uint8_t) dd->a[i]->a[1]->i;
+    return 0;
+  }
   if (!strcmp(fn, "plimit")) {
     K->rlimit_nofile = (int) j_int(c, "limit", 64);
     jv *op = j_get(c, "open");
@@ -1024,7 +1031,7 @@ static void skip_script(const char *why)
  * thread numbers, one per yield point). When the schedule is exhausted the threads run to completion in turn. */
 #define MAXT 3
 #define COSTACK (512 * 1024)
-static struct co { ucontext_t ctx; char *stack; jv *calls; jv *rets; int done; int cur_handle; int yields; jv *kinds; } co[MAXT];
+static struct co { ucontext_t ctx; char *stack; jv *calls; jv *rets; int done; int cur_handle; int yields; jv *kinds; uint64_t mask; } co[MAXT];
 static ucontext_t sched_ctx;
 static int co_cur = -1, co_n;
 static jv *co_sched; static int co_pos;
@@ -1065,6 +1072,10 @@ static jv *run_conc(jv *st)
     struct co *c = &co[t];
     memset(c, 0, sizeof *c);
     c->stack = malloc(COSTACK); c->calls = th->a[t]; c->rets = j_mkarr(); c->kinds = j_mkarr();
+    /* the signal mask is a property of the thread: each "thread" has its own, swapped in and out with the context */
+    jv *tm = j_get(st, "masks");
+    c->mask = K->proc[0].mask;
+    if (tm && t < tm->n) { c->mask = 0; for (int i = 0; i < tm->a[t]->n; i++) c->mask |= 1ULL << (tm->a[t]->a[i]->i - 1); }
     getcontext(&c->ctx);
     c->ctx.uc_stack.ss_sp = c->stack; c->ctx.uc_stack.ss_size = COSTACK; c->ctx.uc_link = &sched_ctx;
     makecontext(&c->ctx, (void (*)(void)) co_body, 1, t);
@@ -1083,7 +1094,11 @@ static jv *run_conc(jv *st)
     co_cur = t;
     if (!started[t]) K->in_api = 0;    /* a fresh thread starts in driver code */
     started[t] = 1;
+    uint64_t main_mask = K->proc[0].mask;
+    K->proc[0].mask = co[t].mask;
     swapcontext(&sched_ctx, &co[t].ctx);
+    co[t].mask = K->proc[0].mask;
+    K->proc[0].mask = main_mask;
     co_cur = -1;
   }
   (void) started;
@@ -1093,6 +1108,9 @@ static jv *run_conc(jv *st)
   jv *ks = j_mkarr();
   for (int t = 0; t < co_n; t++) { j_push(rs, co[t].rets); j_push(ys, j_mkint(co[t].yields)); j_push(ks, co[t].kinds); free(co[t].stack); }
   j_put(x, "rets", rs); j_put(x, "yields", ys); j_put(x, "ykinds", ks);
+  jv *tms = j_mkarr();
+  for (int t = 0; t < co_n; t++) j_push(tms, siglist(co[t].mask, 64));
+  j_put(x, "tmasks", tms);
   return x;
 }
 
